@@ -292,7 +292,11 @@ func parseConverterLine(ctx *context, c *Converter, value string) (err error) {
 		// The functions are looked up after all lines are read: whether a
 		// function is accessible depends on the output package, which may be
 		// set by a later line or inferred from the location of the output file.
-		for _, name := range strings.Fields(rest) {
+		names := strings.Fields(rest)
+		if len(names) == 0 {
+			return fmt.Errorf("missing function name")
+		}
+		for _, name := range names {
 			c.pendingExtend = append(c.pendingExtend, pendingExtend{
 				name: name,
 				opts: &method.ParseOpts{
